@@ -58,7 +58,7 @@ def variant_env(variant):
 
 
 # ------------------------------------------------------------------ sanitizer report -> signature
-_FRAME = re.compile(r'^\s*#(\d+) 0x[0-9a-f]+ (?:in )?(.*)$')
+_FRAME = re.compile(r'^\s*#(\d+) (?:0x[0-9a-f]+ )?(?:in )?(.*)$')
 
 
 def _clean_func(f):
